@@ -56,7 +56,9 @@ def op_list(draw, kind, two, allow_join, n_max, allow_buffer=True):
         else:
             cands += ["map_tsum", "map_tsum"]
             if kind == "pair":
-                cands += ["starmap_pair"]
+                cands += ["starmap_pair"] * 4
+            elif ops and (ops[-1][:2] == ["partition", 2] or ops[-1][:3] == ["sliding_window", 2, False]):
+                cands += ["starmap_pair"] * 3   # tuples of exactly two elements
         op = draw(st.sampled_from(cands))
         if op == "map":
             ops.append(["map", draw(st.sampled_from(["inc", "dbl"])) if kind == "int" else "tsum"])
@@ -116,13 +118,16 @@ def case_strategy(draw, tier="quick"):
     # keyword arguments for the user functions; 'priority' and 'retries' are also parameter
     # names of distributed.Client.submit
     for op in ops:
-        if op[0] in ("map", "starmap", "accumulate") and draw(st.integers(0, 2)) == 0:
+        if op[0] in ("map", "starmap", "accumulate") and \
+                draw(st.integers(0, 1 if op[0] == "starmap" else 2)) == 0:
             names = draw(st.lists(st.sampled_from(["z", "z", "priority", "w", "retries"]),
                                   min_size=1, max_size=2, unique=True))
             op.append({"kw": {n: draw(st.integers(1, 3)) * (10 if n == "z" else 100)
                               for n in names}})
+    # (a zip input that runs more than maxsize=10 elements ahead of the other blocks its producer
+    # for good, in the local pipeline as well: at most 10 inputs when there is a zip)
     inputs = draw(st.lists(st.tuples(st.integers(0, 1 if two else 0), st.integers(0, 9)),
-                           min_size=2, max_size=12))
+                           min_size=2, max_size=10 if any(o[0] == "zip2" for o in ops) else 12))
     # what the elements are when they reach scatter(): ints, or small containers built from the
     # int (tuple / list / frozenset / range of v mod 4 items, so also empty ones), summed by a
     # first map(tsum)
